@@ -67,7 +67,9 @@ Proof. exact ns_non_not_delayed. Qed.
 Print Assumptions C08_non_not_delayed.
 
 (* the session fails: every held CON is reported by exactly one NACK, nothing that was held is
-   transmitted by the disconnect or at any time afterwards *)
+   transmitted by the disconnect or at any time afterwards (whatever happens later, only message
+   ids that are submitted again are ever transmitted; a client session, whose socket the
+   disconnect closes, transmits nothing at all any more) *)
 Theorem C08_fail_nacks : forall c est0 evs r, ns_wf c -> NoDup (ns_sub_mids evs) -> r <> ns_ICMP ->
   let s := ns_run c (ns_init est0) evs in
   ns_open s = true ->
@@ -75,7 +77,10 @@ Theorem C08_fail_nacks : forall c est0 evs r, ns_wf c -> NoDup (ns_sub_mids evs)
   let o := snd (ns_step c s (NsFail r)) in
   ns_dq s' = [] /\ ns_sq s' = [] /\ ns_txs o = [] /\ ns_res o = [] /\
   (forall q, In q (ns_dq s) -> ns_ncon q = true -> ns_nack_count (ns_nmid q) o = 1%nat) /\
-  (forall evs', ns_txs (flat_map snd (ns_trace c s' evs')) = [] /\
+  (forall evs' x, ~ In x (ns_sub_mids evs') ->
+                  ~ In x (map ns_mid (ns_txs (flat_map snd (ns_trace c s' evs'))))) /\
+  (ns_client c = true ->
+   forall evs', ns_txs (flat_map snd (ns_trace c s' evs')) = [] /\
                 ns_res (flat_map snd (ns_trace c s' evs')) = []).
 Proof. exact ns_fail_nacks. Qed.
 Print Assumptions C08_fail_nacks.
